@@ -97,7 +97,17 @@ Vals(M, cs)    == [p \in 1..Len(cs) |-> M[cs[p]].v]
 Ders(M, cs)    == [p \in 1..Len(cs) |-> M[cs[p]].d]
 Fresh(M, n)    == [p \in 1..n |-> Len(M) + p]
 
+(* the gradient of a scalar as a read-only vector (DenseGradient{s}): N entries read from the       *)
+(* derivative state of the scalar's cell                                                          *)
+Grad(d) == IF d = 0 THEN <<>>
+           ELSE LET N == d \div 100  q == d % 100 IN
+                [i \in 1..N |-> IF q >= 1 /\ q <= N /\ i = q THEN 1 ELSE IF q > 50 /\ i = 1 THEN q - 50 ELSE 0]
 Content(O, M, x) ==
+  IF O[x].k = "g"
+  THEN LET g == Grad(M[O[x].cells[1]].d) IN
+       [k |-> "g", of |-> "", r |-> 1, c |-> Len(g), fl |-> O[x].fl, pt |-> O[x].pt, pos |-> 0,
+        v |-> g, d |-> [i \in 1..Len(g) |-> 0], v2 |-> <<>>]
+  ELSE
   [k |-> O[x].k, of |-> O[x].of, r |-> O[x].r, c |-> O[x].c, fl |-> O[x].fl, pt |-> O[x].pt,
    pos |-> O[x].pos, v |-> Vals(M, O[x].cells), d |-> Ders(M, O[x].cells), v2 |-> Vals(M, O[x].c2)]
 AllContent(O, M) == [x \in 1..Len(O) |-> Content(O, M, x)]
@@ -131,7 +141,12 @@ Effect(O, M, st) ==
       n  == NC(o)
       op == st.op
   IN
-  CASE op \in {"clone", "asSame"} -> AddCopy(O, M, st.s, o.k, o.r, o.c, o.cells, o.fl, o.pt, TRUE, op)
+  CASE op \in {"clone", "asSame"} ->
+         LET e == AddCopy(O, M, st.s, o.k, o.r, o.c, o.cells, o.fl, o.pt, TRUE, op) IN
+         IF o.k = "c"     \* a constant vector has no mutator: its clone may keep the (read-only) storage of its source
+         THEN [e EXCEPT !.O[Len(e.O)].uses = @ \cup o.uses] ELSE e
+    [] op = "asConst" -> AddCopy(O, M, st.s, "c", o.r, o.c, o.cells, o.fl, o.pt, FALSE, op)   \* AsSparseConst<T>Vector: read-only copy
+    [] op = "grad"    -> AddRef(O, M, st.s, "g", "", 1, 1, o.cells, 0, op)                     \* DenseGradient{s}: follows the scalar
     [] op = "asFlip"  -> AddCopy(O, M, st.s, o.k, o.r, o.c, o.cells, ~o.fl, o.pt, TRUE, op)
     [] op = "asType"  -> AddCopy(O, M, st.s, o.k, o.r, o.c, o.cells, o.fl, ~o.pt, FALSE, op)
     [] op = "row"     -> AddCopy(O, M, st.s, "v", 1, o.c, RowCells(o, st.a), o.fl, o.pt, TRUE, op)
@@ -191,7 +206,7 @@ Effect(O, M, st) ==
     [] op = "itnext"  -> [O |-> [O EXCEPT ![st.s].pos = @ + 1], M |-> M, res |-> <<>>]
     [] op = "itset"   -> Wr(O, [M EXCEPT ![o.cells[o.pos]] = Cell(st.w, Zeroed(@.d))])
 
-Derives  == {"clone", "asSame", "asFlip", "asType", "row", "col", "slice", "mslice", "T", "elem", "iter", "itclone",
+Derives  == {"asConst", "grad", "clone", "asSame", "asFlip", "asType", "row", "col", "slice", "mslice", "T", "elem", "iter", "itclone",
              "jiter", "tclone", "titer", "safeiter", "safefrom"}
 Probes   == {"diag", "asvector", "asmatrix", "constrow", "constcol"}
 Struct   == {"swap", "reverse", "sort", "swaprows"}
@@ -209,6 +224,8 @@ Others(O, s) == {b \in 1..Len(O) : b # s /\ Shares(O, s, b)}
 Legal(O, M, st) ==
   LET o == O[st.s]  n == NC(o)  op == st.op IN
   CASE op = "asType" -> \A p \in 1..n : M[o.cells[p]].d = 0      \* derivatives across element types: unspecified
+    [] op = "asConst" -> ~o.pt /\ \A p \in 1..n : M[o.cells[p]].d = 0
+    [] op = "grad" -> ~o.pt /\ M[o.cells[1]].d # 0
     [] op = "der" -> ~o.pt                                         \* derivative state exists for the Real types only
     [] op = "vars" -> ~o.pt /\ \A p \in 1..n : M[o.cells[p]].d = 0 \/ (M[o.cells[p]].d \div 100) # n
         \* SetVariable only (re)allocates when N or the order change; what it does to derivatives
@@ -239,7 +256,7 @@ CopiesDisjoint ==
 (* share what they walk over, never a cursor.                                                        *)
 ShareSet(O, a, b) == O[a].uses \cap O[b].uses
 ShareOK ==
-  /\ \A a \in 1..Len(objs) : objs[a].cls \in {"copy", "own"} => objs[a].uses = {a}
+  /\ \A a \in 1..Len(objs) : (objs[a].cls \in {"copy", "own"} /\ objs[a].k # "c") => objs[a].uses = {a}
   /\ \A a, b \in 1..Len(objs) : (a # b /\ objs[a].k = "i" /\ objs[b].k = "i") =>
         \A x \in ShareSet(objs, a, b) : objs[x].k # "i" \/ objs[x].cls = "copy"
 Nth(S, i) == CHOOSE x \in S : Cardinality({y \in S : y < x}) = i - 1
@@ -250,7 +267,7 @@ ShareList(O) ==
   [i \in 1..Cardinality(Q) |-> LET e == Nth(Q, i) IN
      [a |-> e \div 100, b |-> e % 100, own |-> SortedSeq(ShareSet(O, e \div 100, e % 100))]]
 TypeOK ==
-  /\ \A x \in 1..Len(objs) : /\ objs[x].r * objs[x].c = NC(objs[x])
+  /\ \A x \in 1..Len(objs) : /\ objs[x].k = "g" \/ objs[x].r * objs[x].c = NC(objs[x])
                              /\ \A p \in 1..NC(objs[x]) : objs[x].cells[p] \in 1..Len(mem)
                              /\ \A p, q \in 1..NC(objs[x]) : p # q => objs[x].cells[p] # objs[x].cells[q]
 
@@ -269,9 +286,11 @@ InitObj ==
 
 DeriveCands(O, M, s) ==
   LET o == O[s]  n == NC(o) IN
-  CASE o.k = "s" -> {St("clone", s, 0, 0, 0, 0, 0), St("asType", s, 0, 0, 0, 0, 0)}
+  CASE o.k = "s" -> {St("clone", s, 0, 0, 0, 0, 0), St("asType", s, 0, 0, 0, 0, 0), St("grad", s, 0, 0, 0, 0, 0)}
+    [] o.k \in {"c", "g"} -> {St("clone", s, 0, 0, 0, 0, 0)}      \* read-only vectors: CloneConstVector
+                             \cup (IF Pat = "f" /\ o.k = "c" THEN {St("iter", s, 0, 0, 0, 0, 0)} ELSE {})
     [] o.k = "v" ->
-         {St(op, s, 0, 0, 0, 0, 0) : op \in {"clone", "asSame", "asFlip", "asType"}}
+         {St(op, s, 0, 0, 0, 0, 0) : op \in {"clone", "asSame", "asFlip", "asType", "asConst"}}
          \cup ({St("slice", s, a, b, 0, 0, 0) : a \in {0, 1}, b \in {n - 1, n}} \ {St("slice", s, 0, n, 0, 0, 0)})
          \cup (IF n >= 2 THEN {St("elem", s, 0, 1, 0, 0, 0)} ELSE {})
          \cup (IF Pat = "f" THEN {St("iter", s, 0, 0, 0, 0, 0)} ELSE {})
@@ -281,6 +300,7 @@ DeriveCands(O, M, s) ==
          \cup {St("col", s, o.c - 1, 0, 0, 0, 0)}
          \cup (IF o.c >= 2 THEN {St("mslice", s, 0, o.r, 1, o.c, 0)} ELSE {})
          \cup (IF o.r >= 2 /\ o.c >= 2 THEN {St("mslice", s, 1, o.r, 0, o.c - 1, 0)} ELSE {})
+         \cup (IF o.r >= 2 THEN {St("mslice", s, 1, o.r, 0, o.c, 0)} ELSE {})     \* a pure row slice (all columns)
          \cup {St("elem", s, o.r - 1, 0, 0, 0, 0)}
          \cup (IF Pat = "f" THEN {St("iter", s, 0, 0, 0, 0, 0)} ELSE {})
     [] o.k = "i" -> {St("itclone", s, 0, 0, 0, 0, 0)}
@@ -301,7 +321,7 @@ IterDeriveCands(O, M, s) ==
 IterMutCands(O, M, s) ==
   LET o == O[s] IN
   CASE o.k = "i" -> {St("itnext", s, 0, 0, 0, 0, 0)} \cup
-                    (IF o.pos <= NC(o) /\ o.of # "t" THEN {St("itset", s, 0, 0, 0, 0, NewV(M[o.cells[o.pos]].v))} ELSE {})
+                    (IF o.pos <= NC(o) /\ o.of \notin {"t", "c"} THEN {St("itset", s, 0, 0, 0, 0, NewV(M[o.cells[o.pos]].v))} ELSE {})
     [] o.k = "t" -> {St("tins", s, 0, 0, 0, 0, 25), St("tdel", s, 0, 0, 0, 0, 20)}
     [] OTHER -> {}
 
@@ -317,7 +337,8 @@ Positions(o) == {1, NC(o)} \cup (IF NC(o) >= 2 THEN {2} ELSE {})
 MutCands(O, M, s) ==
   LET o == O[s]  n == NC(o) IN
   IF o.k = "i" THEN {St("itnext", s, 0, 0, 0, 0, 0)} \cup
-                    (IF o.pos <= n /\ o.of # "t" THEN {St("itset", s, 0, 0, 0, 0, NewV(M[o.cells[o.pos]].v))} ELSE {})
+                    (IF o.pos <= n /\ o.of \notin {"t", "c"} THEN {St("itset", s, 0, 0, 0, 0, NewV(M[o.cells[o.pos]].v))} ELSE {})
+  ELSE IF o.k \in {"c", "g"} THEN {}
   ELSE IF o.k = "t" THEN {St("tins", s, 0, 0, 0, 0, key) : key \in {15, 35}} \cup {St("tdel", s, 0, 0, 0, 0, key) : key \in {10, 20}}
   ELSE
        {St("set", s, p, 0, 0, 0, NewV(M[o.cells[p]].v)) : p \in Positions(o)}
